@@ -51,8 +51,10 @@ def build_tmd(rng, n_chunks, n_info, canonical=True):
                 seen.add(c)
                 break
         chunks.append(c)
-    # info records: contiguous groups from chunk 0
+    # info records: contiguous groups, usually from chunk 0 (sometimes the first records are not covered by any group) ...
     infos, covered, pos = [], [], 0
+    if n_chunks >= 3 and n_info >= 1 and n_info < 32 and rng.chance(0.15):
+        pos = rng.randint(1, 2)
     for k in range(n_info):
         left = n_chunks - pos
         if n_info >= 32:
@@ -68,6 +70,9 @@ def build_tmd(rng, n_chunks, n_info, canonical=True):
         infos.append(rec)
         covered.extend(range(pos, pos + cnt))
         pos += cnt
+    # ... and the groups need not be LISTED in content order: each info record names its own index offset
+    if len(infos) >= 2 and rng.chance(0.3):
+        rng.shuffle(infos)
     info_block = b''.join(infos).ljust(0x900, b'\0')
     hdr += hashlib.sha256(info_block).digest()
     assert len(hdr) == 0xC4
@@ -97,7 +102,8 @@ def ename(e):
 class C11(Check):
     prop = 'C11'
     rule = ('well-formed TMDs from an independent builder (all six signature types, issuers 0-64 ASCII chars incl. inner '
-            'NUL, single-byte fields from {0,0x7F,0x80,0xFF,random}, category words incl. every single bit and 0xFFFF, '
+            'NUL, single-byte fields from {0,0x7F,0x80,0xFF,random}, category words incl. every single bit and 0xFFFF, info groups '
+            'listed in or out of content order and not always starting at content 0, '
             'save sizes incl. 0 and 2^32-1, 0-64 info records over contiguous chunk groups, 0-300 chunk records); '
             'fault stream: single-bit flips and byte substitutions inside the info block and inside covered chunk '
             'records, truncations, bad signature types, non-canonical flag words, duplicate chunk records; both '
